@@ -283,3 +283,9 @@ Print Assumptions C01_traversed_twice_same.
 Theorem C01_source_sites_display : gen_matches_display = true.
 Proof. exact gen_matches_display_ok. Qed.
 Print Assumptions C01_source_sites_display.
+
+(* ---- round 5 ---- *)
+Theorem C01_constructors_agree : forall m,
+  Forall (fun b => b = (12 <=? mlen m)) (c01_ctor m) /\ length (c01_ctor m) = 7%nat.
+Proof. exact constructors_agree. Qed.
+Print Assumptions C01_constructors_agree.
